@@ -259,7 +259,9 @@ def load_image(inf, spacing=None, medium_index=None, illum_wavelen=None,
             raise LoadError(inf,
                 "The image doesn't have a channel number {0}".format(channel.max()))
         else:
-            arr = arr[:, :, channel].squeeze()
+            arr = arr[:, :, channel]
+            if len(channel) == 1:
+                arr = arr[:, :, 0]
 
             if len(channel) > 1:
                 # multiple channels. increase output dimensionality
